@@ -142,7 +142,7 @@ func gposStr(S gpos, s string) gpos {
 
 // WriterEmpty: nothing written, nothing deferred (exported for the contracts of packages compiler and debug).
 func WriterEmpty(cw *CodeWriter) bool {
-	return len(cw.pendings) == 0 && eq(cw.Builder, strings.Builder{}) && cw.lastByte == 0 && !cw.lastInt && cw.prevByte == 0
+	return len(cw.pendings) == 0 && eq(cw.Builder, strings.Builder{}) && cw.lastByte == 0 && !cw.lastInt && cw.prevByte == 0 && !cw.stmtStart && !cw.stmtParen
 }
 
 // fuse: token-fusion automaton over the write history. A write that begins with '+' or '-' directly after a byte equal
@@ -201,7 +201,7 @@ func cwInv(cw *CodeWriter) bool {
 // mapper's state. Options (PrettyPrint, IndentString, WriteSemicolons, the Mapper pointer) and the tree are not in it.
 //@ group cwFrame
 //@   requires [cw] cw != nil && cwInv(cw) && J(cw) && NoFusion(cw)
-//@   modifies cw.Builder, cw.pendings, cw.IndentLevel, cw.lastByte, cw.prevByte, cw.lastInt, cw.semiOmitted, cw.deferred
+//@   modifies cw.Builder, cw.pendings, cw.IndentLevel, cw.lastByte, cw.prevByte, cw.lastInt, cw.semiOmitted, cw.deferred, cw.stmtStart, cw.stmtParen
 //@   modifies cw.Mapper.generatedLine, cw.Mapper.generatedColumn, cw.Mapper.mappings, cw.Mapper.names, cw.Mapper.nameIndex[*]
 //@   ensures [cwinv@C06,C08] cwInv(cw)
 //@   ensures [J@C08] J(cw)
@@ -213,6 +213,7 @@ func cwInv(cw *CodeWriter) bool {
 //@   ensures [no-mapping@C08] cw.Mapper == nil || sourcemap.NumMappings(cw.Mapper) == old(sourcemap.NumMappings(cw.Mapper))
 //@   ensures [compact.noop@C06] implies(!cw.PrettyPrint, len(cw.pendings) == 0 && cw.IndentLevel == old(cw.IndentLevel))
 //@   ensures [request-kept@C08] cw.deferred == old(cw.deferred)
+//@   ensures [stmt.kept@C03,C01] cw.stmtStart == old(cw.stmtStart) && cw.stmtParen == old(cw.stmtParen)
 
 // pointsAt: mapping i points at the source position (and carries the name) that was requested.
 func pointsAt(cw *CodeWriter, i int, d deferredMapping) bool {
@@ -239,6 +240,7 @@ func here(cw *CodeWriter) gpos {
 //@   ensures [no-mapping@C08] cw.Mapper == nil || sourcemap.NumMappings(cw.Mapper) == old(sourcemap.NumMappings(cw.Mapper))
 //@   ensures [request-kept@C08] cw.deferred == old(cw.deferred)
 //@   ensures [semi.kept@C06] cw.semiOmitted == old(cw.semiOmitted)
+//@   ensures [stmt.kept@C03,C01] cw.stmtStart == old(cw.stmtStart) && cw.stmtParen == old(cw.stmtParen)
 //@   ensures [empty@C06] implies(len(s) == 0, eq(cw.Builder, old(cw.Builder)) && cw.lastByte == old(cw.lastByte))
 
 // write = a separating space if needed, then (for a token) the requested mapping, then the text; the mapper advances
@@ -246,13 +248,16 @@ func here(cw *CodeWriter) gpos {
 //@ func (cw *CodeWriter) write(s, isToken)
 //@   props C08 C06 C15 C11 C14 C01 C03 C07
 //@   use cwFrame
-//@   ensures [mechanism@C08,C14,C06,C15,C03,C01] fullSeq(evOpt(len(s) > 0 && isToken, evCall("(*CodeWriter).restoreSemi")), evOpt(len(s) > 0, evCall("(*CodeWriter).separateSigns")), evOpt(len(s) > 0 && isToken, evCall("(*CodeWriter).commitMapping")), evOpt(len(s) > 0, evCall("isDigits")), evOpt(len(s) > 0 && cw.Mapper != nil, evCall("(*SourceMapper).AdvanceString"))) && implies(len(s) > 0 && isToken, callArg[byte]("(*CodeWriter).restoreSemi", 0, 1) == s[0]) && implies(len(s) > 0 && cw.Mapper != nil, callArg[string]("(*SourceMapper).AdvanceString", 0, 1) == s)
+//@   ensures [mechanism@C08,C14,C06,C15,C03,C01] fullSeq(evOpt(len(s) > 0 && isToken, evCall("(*CodeWriter).openStatement")), evOpt(len(s) > 0 && isToken, evCall("(*CodeWriter).restoreSemi")), evOpt(len(s) > 0, evCall("(*CodeWriter).separateSigns")), evOpt(len(s) > 0 && isToken, evCall("(*CodeWriter).commitMapping")), evOpt(len(s) > 0, evCall("isDigits")), evOpt(len(s) > 0 && cw.Mapper != nil, evCall("(*SourceMapper).AdvanceString"))) && implies(len(s) > 0 && isToken, callArg[byte]("(*CodeWriter).restoreSemi", 0, 1) == s[0]) && implies(len(s) > 0 && cw.Mapper != nil, callArg[string]("(*SourceMapper).AdvanceString", 0, 1) == s)
 //@   ensures [pendings] eq(cw.pendings, old(cw.pendings)) && cw.IndentLevel == old(cw.IndentLevel)
 //@   ensures [no-mapping@C08] implies(cw.Mapper != nil && !(isToken && len(s) > 0 && old(cw.deferred.set)), sourcemap.NumMappings(cw.Mapper) == old(sourcemap.NumMappings(cw.Mapper)))
 //@   ensures [recorded@C08] implies(cw.Mapper != nil && isToken && len(s) > 0 && old(cw.deferred.set), sourcemap.NumMappings(cw.Mapper) == old(sourcemap.NumMappings(cw.Mapper))+1 && pointsAt(cw, old(sourcemap.NumMappings(cw.Mapper)), old(cw.deferred)) && gposStr(startOf(cw, old(sourcemap.NumMappings(cw.Mapper))), s) == here(cw))
 //@   ensures [request-kept@C08] implies(!isToken, cw.deferred == old(cw.deferred))
 //@   ensures [request-used@C08] implies(isToken && cw.Mapper != nil, !cw.deferred.set)
 //@   ensures [written@C06,C07,C01,C03] implies(len(s) > 0 && isToken, !cw.semiOmitted) && implies(len(s) == 0 || !isToken, cw.semiOmitted == old(cw.semiOmitted))
+//@   ensures [stmt.hazard@C03,C01] implies(len(s) > 0 && isToken, callArg[bool]("(*CodeWriter).openStatement", 0, 1) == (s == "{" || s == "function"))
+//@   ensures [stmt.first@C03,C01] implies(len(s) > 0 && isToken, !cw.stmtStart) && implies(len(s) == 0 || !isToken, cw.stmtStart == old(cw.stmtStart) && cw.stmtParen == old(cw.stmtParen))
+//@   ensures [stmt.paren@C03,C01] implies(!(old(cw.stmtStart) && (s == "{" || s == "function")), cw.stmtParen == old(cw.stmtParen))
 //@   ensures [empty@C06] implies(len(s) == 0, eq(cw.Builder, old(cw.Builder)) && cw.lastByte == old(cw.lastByte))
 
 // asiHazard: first characters of a statement that a JavaScript parser takes for the continuation of the expression on
@@ -270,6 +275,37 @@ func asiHazard(c byte) bool { return c == '(' || c == '[' || c == '+' || c == '-
 //@   ensures [restored@C06,C03,C01] implies(cw.semiOmitted && asiHazard(next), cw.lastByte == ';' && writeSeq(evByte(';')))
 //@   ensures [only-then@C06] implies(!(cw.semiOmitted && asiHazard(next)), eq(cw.Builder, old(cw.Builder)) && cw.lastByte == old(cw.lastByte))
 //@   ensures [no-mapping@C08] cw.Mapper == nil || sourcemap.NumMappings(cw.Mapper) == old(sourcemap.NumMappings(cw.Mapper))
+
+// stmtHazard: first tokens that make a statement something other than an expression statement (ECMA-262 14.5: an
+// expression statement must not begin with `{` or `function`).
+// beginStatement / openStatement / endStatement: an expression statement whose first token is such a token is written
+// inside parentheses; the state of the statement around it (function expressions contain statements) is kept by the caller.
+//@ func (cw *CodeWriter) beginStatement()
+//@   props C03 C01 C06 C08 C11
+//@   requires [cw] cw != nil
+//@   modifies cw.stmtStart, cw.stmtParen
+//@   ensures [begun@C03,C01] cw.stmtStart && !cw.stmtParen && result == old(cw.stmtParen)
+
+//@ func (cw *CodeWriter) openStatement(hazard)
+//@   props C03 C01 C06 C08 C11 C07
+//@   requires [cw] cw != nil && cwInv(cw) && J(cw) && NoFusion(cw)
+//@   modifies cw.Builder, cw.lastByte, cw.prevByte, cw.lastInt, cw.stmtStart, cw.stmtParen, cw.Mapper.generatedColumn
+//@   ensures [cwinv] cwInv(cw)
+//@   ensures [J@C08] J(cw)
+//@   ensures [no-fusion@C03,C01,C14] NoFusion(cw)
+//@   ensures [opened@C03,C01] implies(old(cw.stmtStart) && hazard, cw.lastByte == '(' && cw.stmtParen && writeSeq(evByte('(')) && ncalls("(*CodeWriter).restoreSemi") == 1 && callArg[byte]("(*CodeWriter).restoreSemi", 0, 1) == '(')
+//@   ensures [only-then@C06,C03] implies(!(old(cw.stmtStart) && hazard), eq(cw.Builder, old(cw.Builder)) && cw.lastByte == old(cw.lastByte) && cw.lastInt == old(cw.lastInt) && cw.prevByte == old(cw.prevByte) && cw.stmtParen == old(cw.stmtParen))
+//@   ensures [started@C03,C01] !cw.stmtStart
+//@   ensures [no-mapping@C08] cw.Mapper == nil || sourcemap.NumMappings(cw.Mapper) == old(sourcemap.NumMappings(cw.Mapper))
+
+//@ func (cw *CodeWriter) endStatement(outer)
+//@   props C03 C01 C06 C08 C11
+//@   use cwFrame
+//@   ensures [closed@C03,C01] ncalls("(*CodeWriter).WriteRune") == ite(old(cw.stmtParen), 1, 0) && implies(old(cw.stmtParen), callArg[rune]("(*CodeWriter).WriteRune", 0, 1) == ')')
+//@   ensures [nothing@C06] implies(!old(cw.stmtParen), eq(cw.Builder, old(cw.Builder)) && eq(cw.pendings, old(cw.pendings)))
+//@   ensures [outer@C03,C01] cw.stmtParen == outer && !cw.stmtStart
+//@   ensures [indent] cw.IndentLevel == old(cw.IndentLevel)
+//@   ensures [no-mapping@C08] implies(cw.Mapper != nil && !old(cw.deferred.set), sourcemap.NumMappings(cw.Mapper) == old(sourcemap.NumMappings(cw.Mapper)))
 
 //@ func isDigits(s)
 //@   props C03 C01 C11 C06 C08
@@ -301,14 +337,16 @@ func asiHazard(c byte) bool { return c == '(' || c == '[' || c == '+' || c == '-
 //@   ensures [pendings] eq(cw.pendings, old(cw.pendings)) && cw.IndentLevel == old(cw.IndentLevel)
 //@   ensures [no-mapping@C08] cw.Mapper == nil || sourcemap.NumMappings(cw.Mapper) == old(sourcemap.NumMappings(cw.Mapper))
 //@   ensures [request-kept@C08] cw.deferred == old(cw.deferred)
+//@   ensures [stmt.kept@C03,C01] cw.stmtStart == old(cw.stmtStart) && cw.stmtParen == old(cw.stmtParen)
 
 //@ func (cw *CodeWriter) writeIndent()
 //@   props C06 C08 C15 C11
 //@   use cwFrame
-//@   loop 1 invariant [frame] cwInv(cw) && J(cw) && NoFusion(cw) && eq(cw.pendings, old(cw.pendings)) && cw.IndentLevel == old(cw.IndentLevel) && (cw.Mapper == nil || sourcemap.NumMappings(cw.Mapper) == old(sourcemap.NumMappings(cw.Mapper))) && cw.deferred == old(cw.deferred)
+//@   loop 1 invariant [frame] cwInv(cw) && J(cw) && NoFusion(cw) && eq(cw.pendings, old(cw.pendings)) && cw.IndentLevel == old(cw.IndentLevel) && (cw.Mapper == nil || sourcemap.NumMappings(cw.Mapper) == old(sourcemap.NumMappings(cw.Mapper))) && cw.deferred == old(cw.deferred) && cw.stmtStart == old(cw.stmtStart) && cw.stmtParen == old(cw.stmtParen)
 //@   ensures [pendings] eq(cw.pendings, old(cw.pendings)) && cw.IndentLevel == old(cw.IndentLevel)
 //@   ensures [no-mapping@C08] cw.Mapper == nil || sourcemap.NumMappings(cw.Mapper) == old(sourcemap.NumMappings(cw.Mapper))
 //@   ensures [request-kept@C08] cw.deferred == old(cw.deferred)
+//@   ensures [stmt.kept@C03,C01] cw.stmtStart == old(cw.stmtStart) && cw.stmtParen == old(cw.stmtParen)
 
 // flushPending writes each deferred layout character once, in order (a tab stands for the current indentation), then
 // forgets them.
@@ -318,11 +356,12 @@ func asiHazard(c byte) bool { return c == '(' || c == '[' || c == '+' || c == '-
 //@   loop 1 before [mechanism@C06] fullSeq()
 //@   loop 1 each [mechanism@C06] fullSeq(evOpt(ch == '\t', evCall("(*CodeWriter).writeIndent")), evOpt(ch != '\t', evCall("(*CodeWriter).emit")))
 //@   ensures [mechanism@C06] fullSeq(evCall("(*CodeWriter).clearPending"))
-//@   loop 1 invariant [frame] cwInv(cw) && J(cw) && NoFusion(cw) && cw.IndentLevel == old(cw.IndentLevel) && eq(cw.pendings, old(cw.pendings)) && (cw.Mapper == nil || sourcemap.NumMappings(cw.Mapper) == old(sourcemap.NumMappings(cw.Mapper))) && cw.deferred == old(cw.deferred) && implies(!cw.PrettyPrint, eq(cw.Builder, old(cw.Builder)))
+//@   loop 1 invariant [frame] cwInv(cw) && J(cw) && NoFusion(cw) && cw.IndentLevel == old(cw.IndentLevel) && eq(cw.pendings, old(cw.pendings)) && (cw.Mapper == nil || sourcemap.NumMappings(cw.Mapper) == old(sourcemap.NumMappings(cw.Mapper))) && cw.deferred == old(cw.deferred) && implies(!cw.PrettyPrint, eq(cw.Builder, old(cw.Builder))) && cw.stmtStart == old(cw.stmtStart) && cw.stmtParen == old(cw.stmtParen)
 //@   ensures [flushed] len(cw.pendings) == 0 && cw.IndentLevel == old(cw.IndentLevel)
 //@   ensures [compact.nothing@C06] implies(!cw.PrettyPrint, eq(cw.Builder, old(cw.Builder)))
 //@   ensures [no-mapping@C08] cw.Mapper == nil || sourcemap.NumMappings(cw.Mapper) == old(sourcemap.NumMappings(cw.Mapper))
 //@   ensures [request-kept@C08] cw.deferred == old(cw.deferred)
+//@   ensures [stmt.kept@C03,C01] cw.stmtStart == old(cw.stmtStart) && cw.stmtParen == old(cw.stmtParen)
 
 // WriteString = flush the deferred layout, then the text (both through emit, which advances the mapper).
 //@ func (cw *CodeWriter) WriteString(s)
@@ -333,15 +372,20 @@ func asiHazard(c byte) bool { return c == '(' || c == '[' || c == '+' || c == '-
 //@   ensures [no-mapping@C08] implies(cw.Mapper != nil && !(len(s) > 0 && old(cw.deferred.set)), sourcemap.NumMappings(cw.Mapper) == old(sourcemap.NumMappings(cw.Mapper)))
 //@   ensures [recorded@C08] implies(cw.Mapper != nil && len(s) > 0 && old(cw.deferred.set), sourcemap.NumMappings(cw.Mapper) == old(sourcemap.NumMappings(cw.Mapper))+1 && pointsAt(cw, old(sourcemap.NumMappings(cw.Mapper)), old(cw.deferred)) && gposStr(startOf(cw, old(sourcemap.NumMappings(cw.Mapper))), s) == here(cw))
 //@   ensures [request-used@C08] implies(cw.Mapper != nil, !cw.deferred.set)
+//@   ensures [stmt.first@C03,C01] implies(len(s) > 0, !cw.stmtStart)
+//@   ensures [stmt.paren@C03,C01] implies(!(old(cw.stmtStart) && (s == "{" || s == "function")), cw.stmtParen == old(cw.stmtParen))
 
 // WriteRune is used for single ASCII characters other than carriage return.
 // WriteRune = flush the deferred layout, then the character; the mapper advances by one column or one line.
 //@ func (cw *CodeWriter) WriteRune(r)
 //@   props C06 C08 C15 C01 C11 C03 C14 C07
 //@   use cwFrame
-//@   ensures [mechanism@C06,C08,C15,C03,C01] fullSeq(evCall("(*CodeWriter).flushPending"), evCall("(*CodeWriter).restoreSemi"), evCall("(*CodeWriter).separateSigns"), evCall("(*CodeWriter).commitMapping"), evOpt(cw.Mapper != nil && r == '\n', evCall("(*SourceMapper).AdvanceLine")), evOpt(cw.Mapper != nil && r != '\n', evCall("(*SourceMapper).AdvanceColumn")))
+//@   ensures [mechanism@C06,C08,C15,C03,C01] fullSeq(evCall("(*CodeWriter).flushPending"), evCall("(*CodeWriter).openStatement"), evCall("(*CodeWriter).restoreSemi"), evCall("(*CodeWriter).separateSigns"), evCall("(*CodeWriter).commitMapping"), evOpt(cw.Mapper != nil && r == '\n', evCall("(*SourceMapper).AdvanceLine")), evOpt(cw.Mapper != nil && r != '\n', evCall("(*SourceMapper).AdvanceColumn")))
 //@   ensures [column@C08] implies(cw.Mapper != nil && r != '\n', callArg[int]("(*SourceMapper).AdvanceColumn", 0, 1) == 1)
 //@   ensures [asi@C06] callArg[byte]("(*CodeWriter).restoreSemi", 0, 1) == byte(r)
+//@   ensures [stmt.hazard@C03,C01] callArg[bool]("(*CodeWriter).openStatement", 0, 1) == (r == '{')
+//@   ensures [stmt.first@C03,C01] !cw.stmtStart
+//@   ensures [stmt.paren@C03,C01] implies(!(old(cw.stmtStart) && r == '{'), cw.stmtParen == old(cw.stmtParen))
 //@   ensures [written@C06,C07,C01,C03] !cw.semiOmitted
 //@   requires [ascii] 0 <= r && r < 128 && r != '\r'
 //@   ensures [flushed] len(cw.pendings) == 0 && cw.IndentLevel == old(cw.IndentLevel)
@@ -358,6 +402,7 @@ func asiHazard(c byte) bool { return c == '(' || c == '[' || c == '+' || c == '-
 //@   ensures [indent] cw.IndentLevel == old(cw.IndentLevel)
 //@   ensures [no-mapping@C08] implies(cw.Mapper != nil && !old(cw.deferred.set), sourcemap.NumMappings(cw.Mapper) == old(sourcemap.NumMappings(cw.Mapper)))
 //@   ensures [omitted@C06] cw.semiOmitted == (cw.PrettyPrint && !cw.WriteSemicolons)
+//@   ensures [stmt.kept@C03,C01] cw.stmtParen == old(cw.stmtParen) && implies(!old(cw.stmtStart), !cw.stmtStart)
 
 // RequireSemi writes the semicolon that was just left out, and only then.
 //@ func (cw *CodeWriter) RequireSemi()
@@ -366,6 +411,7 @@ func asiHazard(c byte) bool { return c == '(' || c == '[' || c == '+' || c == '-
 //@   ensures [required@C06] ncalls("(*CodeWriter).WriteRune") == ite(old(cw.semiOmitted), 1, 0) && implies(old(cw.semiOmitted), callArg[rune]("(*CodeWriter).WriteRune", 0, 1) == ';')
 //@   ensures [nothing@C06] implies(!old(cw.semiOmitted), eq(cw.Builder, old(cw.Builder)) && eq(cw.pendings, old(cw.pendings)))
 //@   ensures [cleared@C06] !cw.semiOmitted
+//@   ensures [stmt.kept@C03,C01] cw.stmtParen == old(cw.stmtParen) && implies(!old(cw.stmtStart), !cw.stmtStart)
 //@   ensures [indent] cw.IndentLevel == old(cw.IndentLevel)
 //@   ensures [no-mapping@C08] implies(cw.Mapper != nil && !old(cw.deferred.set), sourcemap.NumMappings(cw.Mapper) == old(sourcemap.NumMappings(cw.Mapper)))
 
@@ -435,7 +481,7 @@ func asiHazard(c byte) bool { return c == '(' || c == '[' || c == '+' || c == '-
 //@ func (cw *CodeWriter) WriteLeadingComments(comments)
 //@   props C15 C06 C08 C11
 //@   use cwFrame
-//@   loop 1 invariant [frame] cwInv(cw) && J(cw) && NoFusion(cw) && cw.IndentLevel == old(cw.IndentLevel) && cw.PrettyPrint && (cw.Mapper == nil || sourcemap.NumMappings(cw.Mapper) == old(sourcemap.NumMappings(cw.Mapper))) && cw.deferred == old(cw.deferred)
+//@   loop 1 invariant [frame] cwInv(cw) && J(cw) && NoFusion(cw) && cw.IndentLevel == old(cw.IndentLevel) && cw.PrettyPrint && (cw.Mapper == nil || sourcemap.NumMappings(cw.Mapper) == old(sourcemap.NumMappings(cw.Mapper))) && cw.deferred == old(cw.deferred) && cw.stmtStart == old(cw.stmtStart) && cw.stmtParen == old(cw.stmtParen)
 //@   ensures [compact.none@C15] implies(!cw.PrettyPrint, eq(cw.Builder, old(cw.Builder)) && len(cw.pendings) == 0)
 //@   ensures [empty.none@C15] implies(len(comments) == 0, eq(cw.Builder, old(cw.Builder)) && eq(cw.pendings, old(cw.pendings)))
 //@   ensures [fresh-line@C15] implies(cw.PrettyPrint && len(comments) > 0 && cw.lastByte != 0, len(cw.pendings) == 2 && cw.pendings[0] == '\n' && cw.pendings[1] == '\t')
@@ -446,6 +492,7 @@ func asiHazard(c byte) bool { return c == '(' || c == '[' || c == '+' || c == '-
 //@   ensures [indent] cw.IndentLevel == old(cw.IndentLevel)
 //@   ensures [no-mapping@C08] cw.Mapper == nil || sourcemap.NumMappings(cw.Mapper) == old(sourcemap.NumMappings(cw.Mapper))
 //@   ensures [request-kept@C08] cw.deferred == old(cw.deferred)
+//@   ensures [stmt.kept@C03,C01] cw.stmtStart == old(cw.stmtStart) && cw.stmtParen == old(cw.stmtParen)
 
 // ---- printers ----
 // Every node prints through the code writer only. The [syntax] clauses state, as the exact sequence of writer calls
@@ -508,7 +555,9 @@ func slotPrecedence(e Expression) int     { return 0 }
 //@   props C01 C03 C06 C08 C15 C14 C11 C07
 //@   use cwFrame writeTo
 //@   assumes [wf] es.Expression == nil || !isNil(es.Expression)
-//@   ensures [syntax] traceSeq(evOpt(es.Expression != nil, evNode(es.Expression)), evOpt(es.Expression != nil, evSemi()))
+//@   ensures [syntax] traceSeq(evOpt(es.Expression != nil, evCall("(*CodeWriter).beginStatement")), evOpt(es.Expression != nil, evNode(es.Expression)), evOpt(es.Expression != nil, evCall("(*CodeWriter).endStatement")), evOpt(es.Expression != nil, evSemi()))
+//@   ensures [stmt.outer@C03,C01] implies(es.Expression != nil, callArg[bool]("(*CodeWriter).endStatement", 0, 1) == callResult[bool]("(*CodeWriter).beginStatement", 0))
+//@   ensures [stmt.restored@C03,C01] implies(es.Expression != nil, cw.stmtParen == old(cw.stmtParen) && !cw.stmtStart)
 
 //@ func (fd *FunctionDeclaration) WriteTo(cw)
 //@   props C01 C03 C06 C08 C15 C14 C11 C07
